@@ -337,8 +337,10 @@ def run(chk):
     cases = []
     for i in range(72 if q else 1200):
         name = DET_ALL[i % len(DET_ALL)]
-        c = R.gen_case(rng, name, mmax=4, nmax=5, cat=rng.choice(
-            ["generic", "generic", "conflict", "rank_def", "bad_scale", "dup_rows", "stationary", "one_row"]),
+        rnd = i // len(DET_ALL)
+        c = R.gen_case(rng, name, mmax=4, nmax=5, cat=("sparse_rows" if rnd == 0 else "one_col" if rnd == 1 else rng.choice(
+            ["generic", "generic", "conflict", "rank_def", "bad_scale", "dup_rows", "stationary", "one_row",
+             "sparse_rows", "one_col"])),
             boundary=False)
         cases.append(c)
     # many workers around a common mean (more rows than any unit test uses, norms 1e4 times the pairwise
